@@ -337,7 +337,7 @@ Proof.
 Qed.
 
 (* ------------------------------------------------------------------------------------------------ *)
-(* 7. write_meta                                                                                       *)
+(* 7. write_meta (with an encoding in force, [meta_enc_b]: see RoundTripSim.v)                            *)
 
 (* the metadata content round trip for every modelled codec: unconditional for the single-byte-newline codecs,
    under [guess_agrees] for the others *)
@@ -404,13 +404,13 @@ Qed.
 
 Lemma sim_step_meta : forall orc chunk s s' st valid encs prev kv enc fmt,
   let c := WriteMeta (WDict (JObj kv)) enc fmt in
-  Sim s st valid encs prev -> enc_ok enc -> meta_guess_b s c = true -> oracle_ok_call orc c ->
+  Sim s st valid encs prev -> enc_ok enc -> meta_enc_b s c = true -> meta_guess_b s c = true -> oracle_ok_call orc c ->
   do_call c s = (s', Ok tt) -> 0 < chunk ->
   (Z.of_nat (length (w_out s')) <= sys_maxsize)%Z ->
   step_ok orc chunk s st valid encs prev c s'.
 Proof.
-  intros orc chunk s s' st valid encs prev kv enc fmt c HS Henc Hguess Horc Hcall Hchunk Hsize.
-  destruct (meta_call_inv _ _ _ _ _ Hcall) as (j & d & Ej & Htruthy & Hfmt & Hdump & Hncs).
+  intros orc chunk s s' st valid encs prev kv enc fmt c HS Henc Hmenc Hguess Horc Hcall Hchunk Hsize.
+  destruct (meta_call_inv _ _ _ _ _ (sim_stack_ne _ _ _ _ _ HS) Hmenc Hcall) as (j & d & Ej & Htruthy & Hfmt & Hdump & Hncs).
   injection Ej as <-.
   assert (Hkv : kv <> []) by (intros ->; discriminate Htruthy).
   pose proof (target_content s c I) as Htarget. cbn [call_name c] in Htarget.
